@@ -2030,6 +2030,45 @@ func c08Transit(v *c08env) {
 							}
 						}
 					}
+					// the constructor inlined: &CountBasedWindow{bucket: make([]T, size)} /
+					// &TimeBasedWindow{bucket: make([]T, size), ..} — the window type tells the
+					// kind, the length handed to make the size
+					if u, ok := r.(*ast.UnaryExpr); ok && u.Op == token.AND {
+						if cl, ok := ast.Unparen(u.X).(*ast.CompositeLit); ok {
+							ctor := ""
+							lt := types.NewPointer(f.Info.TypeOf(cl))
+							for cn, k := range map[string]string{"NewCountBasedWindow": "count", "NewTimeBasedWindow": "time"} {
+								if sig, ok := v.ctor[cn].Type().(*types.Signature); ok && sig.Results().Len() == 1 && types.Identical(sig.Results().At(0).Type(), lt) {
+									ctor = k
+								}
+							}
+							var sizes []ast.Expr
+							for _, el := range cl.Elts {
+								val := el
+								if kv, ok := el.(*ast.KeyValueExpr); ok {
+									val = kv.Value
+								}
+								if mk, ok := ast.Unparen(val).(*ast.CallExpr); ok && len(mk.Args) >= 2 {
+									if b, ok := f.Callee(mk).(*types.Builtin); ok && b.Name() == "make" {
+										sizes = append(sizes, mk.Args[1])
+									}
+								}
+							}
+							if ctor != "" && len(sizes) == 1 {
+								sz := ast.Unparen(sizes[0])
+								if cv, ok := sz.(*ast.CallExpr); ok && len(cv.Args) == 1 {
+									if tv, ok := f.Info.Types[cv.Fun]; ok && tv.IsType() {
+										sz = ast.Unparen(cv.Args[0]) // int(size)
+									}
+								}
+								for name := range v.pol {
+									if m.denotesPol(sz, name) {
+										kind = ctor + ":" + name
+									}
+								}
+							}
+						}
+					}
 					st.Set("ev:win:"+kind, flow.True)
 					if strings.HasPrefix(kind, "count:") && typeKnown(st) == "count" || strings.HasPrefix(kind, "time:") && typeKnown(st) == "time" {
 						st.Set("ev:win:typed", flow.True)
